@@ -209,13 +209,14 @@ namespace
     int model = 0;   // 0 mass conserving (half space reference), 1 mass conserving (plate model reference), 2 plate model
     double dip = 45, vsub = 0.05, vspread = 0.05, ridge_x = -4e6, coupling = 8e4, taper = 1e5, forearc = 1.0, min_dist = -2e5, max_dist = 3e5;
     bool adiabatic = true, spline = false, curved = false;
+    double length = 8e5;   // total length of the slab
     int overriding = 0;   // 0 nothing above, 1 cold continental plate above the slab, 2 warm uniform layer
   };
   std::string describe(const Slab &s)
   {
     return JObj().str("model", s.model == 2 ? "plate model" : s.model == 1 ? "mass conserving / plate model reference" : "mass conserving / half space reference").num("dip", s.dip).boolean("dip_increases_along_slab", s.curved).num("subducting_velocity", s.vsub)
            .num("spreading_velocity", s.vspread).num("ridge_x", s.ridge_x).num("coupling_depth", s.coupling).num("taper_distance", s.taper).num("forearc_cooling_factor", s.forearc).num("min_distance_slab_top", s.min_dist)
-           .num("max_distance_slab_top", s.max_dist).boolean("adiabatic_heating", s.adiabatic).boolean("apply_spline", s.spline).integer("overriding_plate", s.overriding).done();
+           .num("max_distance_slab_top", s.max_dist).boolean("adiabatic_heating", s.adiabatic).boolean("apply_spline", s.spline).integer("overriding_plate", s.overriding).num("slab_length", s.length).done();
   }
   std::string slab_world(const Slab &s, bool with_slab_temperature)
   {
@@ -226,8 +227,8 @@ namespace
       tm = "{\"model\":\"mass conserving\",\"density\":3300,\"thermal conductivity\":3.3,\"adiabatic heating\":" + std::string(s.adiabatic ? "true" : "false") + ",\"spreading velocity\":" + num(s.vspread) + ",\"subducting velocity\":" + num(s.vsub)
            + ",\"ridge coordinates\":[[[" + num(s.ridge_x) + ",-2e6],[" + num(s.ridge_x) + ",2e6]]],\"coupling depth\":" + num(s.coupling) + ",\"forearc cooling factor\":" + num(s.forearc) + ",\"taper distance\":" + num(s.taper)
            + ",\"min distance slab top\":" + num(s.min_dist) + ",\"max distance slab top\":" + num(s.max_dist) + ",\"reference model name\":\"" + (s.model == 1 ? "plate model" : "half space model") + "\",\"apply spline\":" + (s.spline ? "true,\"number of points in spline\":7" : "false") + "}";
-    const std::string segs = s.curved ? "[{\"length\":3e5,\"thickness\":[3e5],\"top truncation\":[-2e5],\"angle\":[" + num(s.dip * 0.4) + "," + num(s.dip) + "]},{\"length\":5e5,\"thickness\":[3e5],\"top truncation\":[-2e5],\"angle\":[" + num(s.dip) + "]}]"
-                             : "[{\"length\":8e5,\"thickness\":[3e5],\"top truncation\":[-2e5],\"angle\":[" + num(s.dip) + "]}]";
+    const std::string segs = s.curved ? "[{\"length\":" + num(0.375*s.length) + ",\"thickness\":[3e5],\"top truncation\":[-2e5],\"angle\":[" + num(s.dip * 0.4) + "," + num(s.dip) + "]},{\"length\":" + num(0.625*s.length) + ",\"thickness\":[3e5],\"top truncation\":[-2e5],\"angle\":[" + num(s.dip) + "]}]"
+                             : "[{\"length\":" + num(s.length) + ",\"thickness\":[3e5],\"top truncation\":[-2e5],\"angle\":[" + num(s.dip) + "]}]";
     std::vector<std::string> f;
     if (s.overriding == 1) f.push_back("{\"model\":\"continental plate\",\"name\":\"C\",\"max depth\":1.2e5,\"coordinates\":[[0,-1e6],[2e6,-1e6],[2e6,1e6],[0,1e6]],\"temperature models\":[{\"model\":\"linear\",\"max depth\":1.2e5,\"top temperature\":273,\"bottom temperature\":-1}]}");
     if (s.overriding == 2) f.push_back("{\"model\":\"mantle layer\",\"name\":\"M\",\"max depth\":4e5,\"coordinates\":[[-2e6,-1e6],[2e6,-1e6],[2e6,1e6],[-2e6,1e6]],\"temperature models\":[{\"model\":\"uniform\",\"temperature\":1750}]}");
@@ -272,7 +273,7 @@ namespace
   std::vector<Slab> slabs(bool th)
   {
     // deviation-bounded: all tuples that differ from the default slab in at most 2 | 3 coordinates
-    const std::vector<uint64_t> radices = {3 /*model*/, 4 /*dip*/, 3 /*vsub*/, 3 /*vspread*/, 3 /*ridge*/, 3 /*coupling*/, 3 /*taper*/, 2 /*forearc*/, 3 /*min dist*/, 2 /*max dist*/, 2 /*adiabatic*/, 2 /*spline*/, 2 /*curved*/, 3 /*overriding*/};
+    const std::vector<uint64_t> radices = {3 /*model*/, 4 /*dip*/, 3 /*vsub*/, 3 /*vspread*/, 3 /*ridge*/, 3 /*coupling*/, 3 /*taper*/, 2 /*forearc*/, 3 /*min dist*/, 2 /*max dist*/, 2 /*adiabatic*/, 2 /*spline*/, 2 /*curved*/, 3 /*overriding*/, 3 /*length*/};
     std::vector<Slab> v;
     for (auto &d : deviations(radices, th ? 4 : 2))
       {
@@ -291,6 +292,7 @@ namespace
         s.spline = d[11] == 1;
         s.curved = d[12] == 1;
         s.overriding = static_cast<int>(d[13]);
+        s.length = std::vector<double>{8e5, 3.5e5, 2e5}[d[14]];     // short slabs: the taper zone reaches above the coupling depth
         v.push_back(s);
       }
     return v;
@@ -308,7 +310,7 @@ namespace
       f = std::string("{\"model\":\"") + LF[l.feature] + "\",\"name\":\"A\",\"min depth\":" + num(l.fmin) + ",\"max depth\":" + num(FMAX) + ",\"coordinates\":" + pts({{-5*s,-5*s},{5*s,-5*s},{5*s,5*s},{-5*s,5*s}})
           + ",\"temperature models\":[{\"model\":\"linear\",\"min depth\":" + num(l.mlo) + ",\"max depth\":" + num(l.mhi) + ",\"top temperature\":" + num(l.Tt) + ",\"bottom temperature\":" + num(l.Tb) + "}]}";
     else
-      f = std::string("{\"model\":\"") + LF[l.feature] + "\",\"name\":\"A\",\"coordinates\":[[0,-4e5],[0,4e5]],\"dip point\":[5e6,0],\"segments\":[{\"length\":3e5,\"thickness\":[2e5],\"angle\":[90]}],\"temperature models\":[{\"model\":\"linear\","
+      f = std::string("{\"model\":\"") + LF[l.feature] + "\",\"name\":\"A\",\"coordinates\":[[0,-4e5],[0,4e5]],\"dip point\":[5e6,0],\"segments\":[{\"length\":3e5,\"thickness\":[2e5]" + std::string(l.feature == 3 ? ",\"top truncation\":[-1e5]" : "") + ",\"angle\":[90]}],\"temperature models\":[{\"model\":\"linear\","
           + (l.feature == 3 ? "\"min distance slab top\":" + num(l.mlo) + ",\"max distance slab top\":" + num(l.mhi) + ",\"top temperature\":" + num(l.Tt) + ",\"bottom temperature\":" + num(l.Tb)
              : "\"min distance fault center\":" + num(l.mlo) + ",\"max distance fault center\":" + num(l.mhi) + ",\"center temperature\":" + num(l.Tt) + ",\"side temperature\":" + num(l.Tb)) + "}]}";
     const std::string text = world(globals(l.sph), {f});
@@ -326,7 +328,12 @@ namespace
         const double c1 = a + (b - a) * k / 50.0;
         double t;
         if (l.feature < 3) t = w->properties(query_point(l.sph, 1.5*s, -2.25*s, c1), c1, {{{1,0,0}}})[0];
-        else { const double cc = std::max(c1, 1e-3); t = w->properties(P3{{l.feature == 3 ? -cc : (k % 2 ? cc : -cc), 1e5, CART_TOP - 1e5}}, 1e5, {{{1,0,0}}})[0]; }   // a millimetre off the plane itself
+        else
+          {
+            // a millimetre off the plane itself; the slab body lies on the -x side, negative distances (above the slab surface) on the +x side
+            const double cc = std::fabs(c1) < 1e-3 ? (l.mlo < 0 && c1 < 0 ? -1e-3 : 1e-3) : c1;
+            t = w->properties(P3{{l.feature == 3 ? -cc : (k % 2 ? cc : -cc), 1e5, CART_TOP - 1e5}}, 1e5, {{{1,0,0}}})[0];
+          }
         ctx.eval(); ctx.count(c_env);
         if (!(t >= lo - tol && t <= hi + tol)) { fail(t > hi ? "above-the-hot-boundary-temperature" : "below-the-cold-boundary-temperature", c1, t); return; }
         if (k == 0) { ctx.count(c_bnd); if (!(std::fabs(t - l.Tt) <= (l.feature >= 3 ? 1e-6 : 1e-9) * hi)) { fail("first-boundary-temperature-not-attained", c1, t); return; } }
@@ -339,7 +346,7 @@ namespace
   {
     std::vector<Lin> v;
     for (int f = 0; f < 5; ++f) for (int sph = 0; sph < (f < 3 ? 2 : 1); ++sph) for (double fmin : (f < 3 ? std::vector<double>{0, 3e4} : std::vector<double>{0}))
-          for (auto r : (f < 3 ? std::vector<std::array<double,2>>{{{5e4, 1.5e5}}, {{fmin, 2e5}}, {{0, 3e5}}, {{0, 1e5}}, {{1e5, 4e5}}} : std::vector<std::array<double,2>>{{{0, 8e4}}, {{2e4, 6e4}}, {{0, f == 3 ? 2e5 : 1e5}}}))
+          for (auto r : (f < 3 ? std::vector<std::array<double,2>>{{{5e4, 1.5e5}}, {{fmin, 2e5}}, {{0, 3e5}}, {{0, 1e5}}, {{1e5, 4e5}}} : (f == 3 ? std::vector<std::array<double,2>>{{{0, 8e4}}, {{2e4, 6e4}}, {{0, 2e5}}, {{-6e4, 4e4}}, {{-3e4, 8e4}}, {{-8e4, -1e4}}} : std::vector<std::array<double,2>>{{{0, 8e4}}, {{2e4, 6e4}}, {{0, 1e5}}})))
             for (auto T : (th ? std::vector<std::array<double,2>>{{{300, 1600}}, {{1600, 300}}, {{1000, 1000}}, {{1, 2500}}} : std::vector<std::array<double,2>>{{{300, 1600}}, {{1600, 300}}}))
               v.push_back({f, fmin, r[0], r[1], T[0], T[1], sph == 1});
     return v;
@@ -353,7 +360,7 @@ int main(int argc, char **argv)
   spec.level = "exploration";
   spec.rule = "suite oceanic: full product of model {half space, plate, constant-age plate} x (top, bottom) temperatures with top <= bottom x max depth x ridge geometry {straight, bent, two segments with transform, spherical} x spreading velocity x "
               "{uniform, varying along the ridge}; every world probed on 16 x 5 surface positions (on the ridge axis, 0.1 m / 100 m / 1 km from it, far from it, on both sides) x 43 depths. suite slabs: every parameter tuple of the mass conserving "
-              "and plate model slab temperatures within 2 | 4 deviations of a default (14 coordinates: model, dip, velocities, ridge distance, coupling depth, taper, forearc cooling, distance range, adiabatic heating, spline, curved slab, overriding plate) "
+              "and plate model slab temperatures within 2 | 4 deviations of a default (15 coordinates: model, dip, velocities, ridge distance, coupling depth, taper, forearc cooling, distance range, adiabatic heating, spline, curved slab, overriding plate, slab length) "
               "on a 37 x 57 x 2 probe lattice. suite linear: linear models of all five feature types x range relations x boundary temperatures. non-trivial: some probe strictly between the end members";
   spec.assumptions = {"envelope of slab models: surface temperature <= T <= max(ambient temperature, background adiabat at that depth); the ambient temperature is what the same world answers when the slab has no temperature model (twin world)",
                       "comparisons are written in negated form so that NaN counts as outside the envelope",
